@@ -9,8 +9,11 @@ import (
 	"fmt"
 	"math/rand"
 	"os"
+	"path/filepath"
 	"runtime"
 	"sort"
+	"strconv"
+	"strings"
 	"time"
 
 	"github.com/mandykoh/prism/meta/icc"
@@ -326,7 +329,15 @@ func exercise(structName string, data []byte, tag map[string]interface{}, emit f
 			}})
 		}
 	} else {
-		for _, loader := range []string{structName, "auto"} {
+		loaders := []string{structName, "auto"}
+		if structName == "any" { // an input of unknown kind (fuzzing corpus): everything that takes bytes
+			loaders = obs.LoaderNames
+			calls = append(calls, call{"icc.ReadProfile+Description", func() {
+				p, _ := icc.NewProfileReader(bytes.NewReader(data)).ReadProfile()
+				descOf(p)
+			}})
+		}
+		for _, loader := range loaders {
 			l := loader
 			calls = append(calls, call{"Load(" + l + ")+ICCProfile+Description", func() {
 				md, stream, _ := obs.Loaders[l](bytes.NewReader(data))
@@ -383,6 +394,7 @@ func hostileCmd(args []string) error {
 	from := fs.Int("from", 0, "skip jobs numbered <= from (restart after a crash)")
 	dumpCase := fs.Int("dump", -1, "write the mutated input of job N to -dumpfile and exit")
 	dumpFile := fs.String("dumpfile", "", "")
+	corpus := fs.String("corpus", "", "directory of inputs found by coverage-guided fuzzing (thorough tier): each is exercised and judged like the rest")
 	fs.Parse(args)
 	runtime.GOMAXPROCS(2)
 	f, err := os.Open(*in)
@@ -582,6 +594,33 @@ func hostileCmd(args []string) error {
 				begin(fmt.Sprintf("run of %d x %#02x in %s at %d", runLen, bv, s.Name, pos))
 				exercise(s.Struct, d, map[string]interface{}{"src": "longrun", "seed": s.Name, "at": pos, "byte": int(bv), "len": runLen, "job": job}, emit)
 			}
+		}
+	}
+	// (e) inputs found by Go's coverage-guided fuzzing of the same entry points (thorough tier)
+	if *corpus != "" {
+		ents, _ := os.ReadDir(*corpus)
+		for _, e := range ents {
+			if e.IsDir() || !mine() {
+				continue
+			}
+			d, err := os.ReadFile(filepath.Join(*corpus, e.Name()))
+			if err != nil {
+				continue
+			}
+			// Go's corpus file format: "go test fuzz v1" then one line []byte("...") per argument
+			if lines := strings.SplitN(string(d), "\n", 3); len(lines) >= 2 && strings.HasPrefix(lines[0], "go test fuzz v1") {
+				l := strings.TrimSpace(lines[1])
+				if strings.HasPrefix(l, "[]byte(") && strings.HasSuffix(l, ")") {
+					if q, err := strconv.Unquote(l[7 : len(l)-1]); err == nil {
+						d = []byte(q)
+					}
+				}
+			}
+			if *dumpCase == job {
+				return os.WriteFile(*dumpFile, d, 0o644)
+			}
+			begin("fuzz corpus " + e.Name())
+			exercise("any", d, map[string]interface{}{"src": "fuzzing", "seed": e.Name(), "job": job}, emit)
 		}
 	}
 	fmt.Fprintf(w, "#END %d\n", job)
